@@ -750,7 +750,8 @@ class System:
         """Create vectors of init values for solver"""
         v, i, state = self._sys_vars()
         self._set_phase_lkup()
-        for n in self._get_nodes():
+        dead = {}
+        for n in self._topo_nodes:
             v[n] = self._g[n]._get_outp_voltage(phase, self._phase_lkup[n])
             i[n] = self._g[n]._get_inp_current(phase, self._phase_lkup[n])
             p = self._parents[n]
@@ -759,8 +760,13 @@ class System:
                     self._g[i]._get_state(phase, self._phase_lkup[i])["off"][0]
                     for i in p
                 ]
+                # no live source above: the subtree starts (and stays) at zero
+                dead[n] = all([dead[k] for k in p])
+                if dead[n]:
+                    v[n], i[n] = 0.0, 0.0
             else:
                 state[n] = self._g[n]._get_state(phase, self._phase_lkup[n])
+                dead[n] = state[n]["off"][0]
         return v, i, state
 
     def _child_curr(self, node, i, v, state):
